@@ -62,7 +62,10 @@ C10Fold(a, S) == IF S = <<>> THEN a ELSE C10Fold(C10Send(a, Head(S)), Tail(S))
 C10Step(m, o) ==
     \* what it was told, plus what it knows first hand: its own identity at its own incarnation
     \* (the Down of a former identity is gossiped after a move to another address)
-    LET told == MergeTold(m.told, ToldPairs(o) \cup {<<o.pre.id, o.hpre.inc>>})
+    \* (every identity it held, also one held only in the middle of a call - two renewals in one datagram -
+    \*  which Rejoin names; its Down is still in the backlog when the instance later moves to another address)
+    LET told == MergeTold(m.told, ToldPairs(o) \cup {<<o.pre.id, o.hpre.inc>>, <<o.post.id, o.hpost.inc>>}
+                                  \cup {<<n.id, 0>> : n \in {x \in Range(Notifs(o.out)) : x.k = "Rejoin"}})
         idChanged == o.post.id # o.pre.id
         restart == idChanged \/ (o.call = "reuse" /\ o.res = "Ok")
         \* the identity in use is tracked from the public getter between calls
